@@ -17,7 +17,7 @@ RULE = ('obligation 1: `make ACC=pycc pycc` succeeds on a scratch copy of the cu
         'uniform-cubic descriptors, evaluation points at cell edges / +-1 ulp / interior, derivative flags, all z indices x positive / negative / multi-period '
         'stencil shifts, the three v boundary modes with feet inside / outside / several periods away, both poloidal time schemes and boundary modes, float '
         'and complex density storage, initialisation functions on a parameter grid) and compares outputs and in-place updates of the compiled function with the '
-        'interpreted one (1e-13 relative); implementations: pyccel-compiled, numba copies and pythran copies executed as plain Python; function-name sets '
+        'interpreted one (1e-13 relative); implementations: pyccel-compiled with both back ends of the Makefile (Fortran, the default, and LANGUAGE=c), numba copies and pythran copies executed as plain Python; function-name sets '
         'of the copies are compared with the pyccel sources; an evaluation is one kernel call compared; non-trivial = every call')
 ASSUMPTIONS = ['pyccel 2.0.1 + gfortran as installed', 'numba / pythran are not installed: their source copies are executed as plain Python with identity decorators, compiled artefacts are not claimed',
                'out-of-bounds writes of a compiled kernel are only seen through guard slabs / crashes of the worker process']
@@ -43,39 +43,56 @@ def prepare(tier):
     """scratch build of the current working tree; returns dict(build=path, ok=bool, log=tail)"""
     import subprocess
     from pgv import env
-    d = env.scratch_dir('c19build')
-    subprocess.run(['rsync', '-a', '--exclude', '.git', '--exclude', 'pygyro.egg-info', '--exclude', '*.so', '--exclude', '__pyccel__', '--exclude', '__pycache__',
-                    env.REPO + '/', d + '/'], check=True)
     e = dict(os.environ)
     e['PATH'] = '/venv/bin:' + e.get('PATH', '')
-    p = subprocess.run(['make', 'ACC=pycc', 'PYTHON=/venv/bin/python', 'pycc'], cwd=d, env=e, capture_output=True, text=True, timeout=1500)
-    return {'build': d, 'ok': p.returncode == 0, 'log': (p.stdout + p.stderr)[-1500:]}
+    # two builds of the same tree side by side: the default back end (Fortran) and the other one the Makefile offers (C)
+    procs = []
+    for tag, extra in (('c19build', []), ('c19buildc', ['LANGUAGE=c'])):
+        d = env.scratch_dir(tag)
+        subprocess.run(['rsync', '-a', '--exclude', '.git', '--exclude', 'pygyro.egg-info', '--exclude', '*.so', '--exclude', '__pyccel__', '--exclude', '__pycache__',
+                        env.REPO + '/', d + '/'], check=True)
+        procs.append((d, subprocess.Popen(['make', 'ACC=pycc', 'PYTHON=/venv/bin/python'] + extra + ['pycc'], cwd=d, env=e, stdout=subprocess.PIPE, stderr=subprocess.STDOUT, text=True)))
+    res = []
+    for d, p in procs:
+        try:
+            out, _ = p.communicate(timeout=1500)
+        except subprocess.TimeoutExpired:
+            p.kill()
+            out = 'build timed out'
+        res.append((d, p.returncode == 0, (out or '')[-1500:]))
+    return {'build': res[0][0], 'ok': res[0][1], 'log': res[0][2], 'build_c': res[1][0], 'ok_c': res[1][1], 'log_c': res[1][2]}
 
 
 def cleanup(prep):
     from pgv import env
     if prep:
         env.rm(prep['build'])
+        if prep.get('build_c'):
+            env.rm(prep['build_c'])
         env.cleanup_root()
 
 
 def rebind_case(case, prep):
     case = dict(case)
-    case['build'] = prep['build']
-    case['build_ok'] = prep['ok']
-    case['log'] = prep['log']
+    c_back = case.get('impl') == 'pyccel-c' or case.get('backend') == 'c'
+    case['build'] = prep['build_c'] if c_back else prep['build']
+    case['build_ok'] = prep['ok_c'] if c_back else prep['ok']
+    case['log'] = prep['log_c'] if c_back else prep['log']
     return case
 
 
 def cases(tier, seed, prep):
-    out = [{'kind': 'build', 'build': prep['build'], 'build_ok': prep['ok'], 'log': prep['log'], 'cost': 1}]
+    out = [{'kind': 'build', 'build': prep['build'], 'build_ok': prep['ok'], 'log': prep['log'], 'cost': 1},
+           {'kind': 'build', 'backend': 'c', 'build': prep['build_c'], 'build_ok': prep['ok_c'], 'log': prep['log_c'], 'cost': 1}]
     for mod in MODULES:
-        for impl in ('pyccel', 'numba', 'pythran'):
-            if impl != 'pyccel' and mod not in COPIES[impl]:
+        for impl in ('pyccel', 'pyccel-c', 'numba', 'pythran'):
+            if not impl.startswith('pyccel') and mod not in COPIES[impl]:
                 continue
             parts = [0, 1, 2, 3] if mod == 'accelerated_advection_steps' else [0]
             for part in parts:
-                out.append({'kind': 'diff', 'module': mod, 'impl': impl, 'part': part, 'tier': tier, 'build': prep['build'], 'build_ok': prep['ok'], 'cost': 50})
+                c_back = impl == 'pyccel-c'
+                out.append({'kind': 'diff', 'module': mod, 'impl': impl, 'part': part, 'tier': tier, 'build': prep['build_c'] if c_back else prep['build'],
+                            'build_ok': prep['ok_c'] if c_back else prep['ok'], 'cost': 50})
     return out
 
 
@@ -445,7 +462,7 @@ def run_case(case):
     if case['kind'] == 'build':
         evals = 1
         if not case['build_ok']:
-            V('documented-build-fails', '`make ACC=pycc pycc` failed on a copy of the current tree: ' + case['log'][-600:])
+            V('documented-build-fails' + (':LANGUAGE=c' if case.get('backend') == 'c' else ''), '`make ACC=pycc%s pycc` failed on a copy of the current tree: ' % (' LANGUAGE=c' if case.get('backend') == 'c' else '') + case['log'][-600:])
         else:
             for mod, rel in MODULES.items():
                 evals += 1
@@ -467,13 +484,13 @@ def run_case(case):
                             V('%s-copy-lacks-functions:%s' % (impl, mod), '%s lacks the functions %r defined in %s.py' % (table[mod], miss, mod))
         return {'evals': evals, 'nontrivial': evals, 'violations': list(viols.values()), 'stats': {'builds': 1}, 'sample': {'build_ok': case['build_ok']}}
     mod, impl = case['module'], case['impl']
-    if impl == 'pyccel' and not case['build_ok']:
+    if impl.startswith('pyccel') and not case['build_ok']:
         return {'evals': 0, 'nontrivial': 0, 'violations': [], 'stats': {}, 'sample': None}
     rel = MODULES[mod]
     ref = importlib.import_module(rel.replace('/', '.') + '.' + mod)
     assert ref.__file__.endswith('.py')
     try:
-        other = _load_compiled(case['build'], mod) if impl == 'pyccel' else _load_copy(impl, mod)
+        other = _load_compiled(case['build'], mod) if impl.startswith('pyccel') else _load_copy(impl, mod)
     except Exception as e:  # noqa
         V('cannot-load:%s:%s' % (impl, mod), '%s: %s' % (type(e).__name__, e))
         return {'evals': 1, 'nontrivial': 1, 'violations': list(viols.values()), 'stats': {}, 'sample': None}
@@ -521,7 +538,7 @@ def run_case(case):
             if not err <= tol:
                 V('kernel-differs:%s:%s' % (impl, la[0]), '%s %r: max difference %.3g between the %s and the interpreted kernel' % (la[0], la[1:], err, impl))
     missing = sorted(set(v[0][0] for k, v in A.items() if k not in B))
-    if missing and impl == 'pyccel':
+    if missing and impl.startswith('pyccel'):
         V('kernel-not-driven:' + mod, 'compiled kernels without comparable calls: %r' % missing)
     return {'evals': evals, 'nontrivial': evals, 'violations': list(viols.values()), 'stats': {'max_err_over_tol': worst, 'kernels_driven': sorted(kernels)},
             'sample': {'module': mod, 'implementation': impl, 'calls_compared': evals, 'kernels': sorted(kernels)}}
